@@ -521,3 +521,21 @@ Proof. exact cancelled_during_first_touch. Qed.
 Example C13_keepalive_first_touch_applied_unanswered :
   exists s, krun true k0 [KCall; KApply] = Some s /\ k_ph s = KTouch /\ k_rec s = true /\ k_req s = Some (false, true).
 Proof. exact first_touch_applied_unanswered. Qed.
+
+(* clause 9, the record itself: what touch() writes is read back by every peer with the configured lifetime (a day
+   and more included) and the deadline now + lifetime; with C13_own_record_never_expired: it outlives its renewal *)
+Theorem C13_written_record_reads_back : forall oint odate fmt c now now' id,
+  0 < c_life c -> odate (fmt now) = Some now ->
+  rec_in_range now' (mkRec (c_prio c) (c_life c) (Some now)) = true ->
+  exists r, touch_record c None now = Some (c_prio c, c_life c, now) /\ r = mkRec (c_prio c) (c_life c) (Some now) /\
+    exists p, mk_peer oint odate now' id (enc_rec fmt r) = POk p /\
+      p_prio p = JNum (c_prio c) /\ p_life p = c_life c /\ p_seen p = now /\
+      p_deadline p = now + c_life c * 1000 /\ p_dead p = (now + c_life c * 1000 <=? now').
+Proof. exact written_record_reads_back. Qed.
+Print Assumptions C13_written_record_reads_back.
+
+Example C13_written_record_day_long :
+  rec_in_range 100000 (mkRec 7 90000 (Some 5000)) = true /\ ex_odate (ex_fmt 5000) = Some 5000 /\
+  exists p, mk_peer (fun _ => None) ex_odate 100000 "x" (enc_rec ex_fmt (mkRec 7 90000 (Some 5000))) = POk p /\
+            p_deadline p = 5000 + 90000 * 1000 /\ p_dead p = false.
+Proof. exact written_record_day_long. Qed.
